@@ -61,10 +61,75 @@ contract('parso.cache._set_cache_item',
 contract('parso.file_io.FileIO.get_last_modified', params={'self': 'ref:FileIO'}, returns='opt:int', trusted=True,
          ensures=['implies(not (result is None), result == cur_mtime(self.path))'],
          note='environment: the modification time observed now')
+# ---- the disk branch.  Ghost file system: file_mtime(p) is the modification time of the file at p, file_obj(p) the
+# object its pickle holds, path_of(h) the path a file handle was opened on, hashed_path(g, p, c) the cache file name.
+_fm = z3.Function('file_mtime', I, I)
+_fo = z3.Function('file_obj', I, I)
+_po = z3.Function('path_of', I, I)
+_hp = z3.Function('hashed_path', I, I, I, I)
+
+
+@specfn('file_mtime')
+def sp_fm(eng, st, p):
+    return VInt(_fm(p.t))
+
+
+@specfn('file_obj')
+def sp_fo(eng, st, p):
+    from pv.values import VRef
+    return VRef(_fo(p.t), None)
+
+
+@specfn('file_item')
+def sp_fi(eng, st, p):
+    from pv.values import VRef
+    return VRef(_fo(p.t), '_NodeCacheItem')      # the same object, viewed as a cache item (for field access)
+
+
+@specfn('path_of')
+def sp_po(eng, st, h):
+    from pv.values import VAny
+    return VAny(_po(h.t))
+
+
+@specfn('hashed_path')
+def sp_hp(eng, st, g, p, c):
+    from pv.values import VAny, VNoneT
+    return VAny(_hp(g.t, p.t, z3.IntVal(0) if isinstance(c, VNoneT) else c.t))
+
+
+contract('ext:genericpath.getmtime', params={'filename': 'any'}, returns='int', trusted=True, raises=['OSError'],
+         ensures=['result == file_mtime(filename)'], note='environment: the modification time of that file now')
+for _k in ('ext:io.open', 'ext:_io.open'):
+    contract(_k, params={'file': 'any', 'mode': 'str'}, returns='any', trusted=True, raises=['OSError'],
+             ensures=['path_of(result) == file'], fresh_result=False, note='environment: a handle on that file')
+contract('ext:_pickle.load', params={'file': 'any'}, returns='ref', trusted=True, raises=['Exception'],
+         ensures=['result is file_obj(path_of(file))'],
+         note='environment: whatever object the bytes of the file unpickle to (any class, or any exception)')
+contract('ext:gc.disable', params={}, trusted=True, note='no effect on the modelled state')
+contract('ext:gc.enable', params={}, trusted=True, note='no effect on the modelled state')
+contract('ext:logging.Logger.debug', params={'msg': 'str', 'a1': 'any'}, trusted=True, note='no effect on the modelled state')
+contract('parso.cache._get_hashed_path', params={'hashed_grammar': 'any', 'path': 'any', 'cache_path': 'any'}, returns='any',
+         trusted=True, raises=['OSError'], ensures=['result == hashed_path(hashed_grammar, path, cache_path)'],
+         note='a function of its arguments (sha256 of the path under the cache directory); may create the directory')
+
+# A tree is served from disk only if the cache file is not older than the source (p_time) and unpickles to a
+# _NodeCacheItem; every failure is a miss (None), never an exception (C17).  DISK-INV (assumed of the writer,
+# try_to_save_module): a cache file that is not older than source mtime p holds the tree of the source version at p.
+HP = 'hashed_path(hashed_grammar, path, cache_path)'
 contract('parso.cache._load_from_file_system',
          params={'hashed_grammar': 'any', 'path': 'any', 'p_time': 'int', 'cache_path': 'any'}, returns='ref:Module',
-         trusted=True, ensures=['implies(result is not None, result.ver == ver_at(path, p_time))'], modifies=['$maps'],
-         note='disk branch: the analogous obligation (pickle mtime >= source mtime) is covered by the bounded stand-in')
+         globals_=CACHE,
+         requires=['parser_cache is not None', 'allocated(parser_cache)',
+                   'forall(lambda g: implies(g in parser_cache, parser_cache[g] is not None and parser_cache[g] is not parser_cache '
+                   'and allocated(parser_cache[g])))',
+                   'forall(lambda g1, g2: implies(g1 in parser_cache and g2 in parser_cache and g1 != g2, '
+                   'parser_cache[g1] is not parser_cache[g2]))',
+                   'implies(isinstance(file_obj(%s), _NodeCacheItem) and p_time <= file_mtime(%s), '
+                   'file_item(%s).node is not None and file_item(%s).node.ver == ver_at(path, p_time))' % (HP, HP, HP, HP)],
+         ensures=['implies(result is not None, result.ver == ver_at(path, p_time))',
+                  'implies(result is not None, result is file_item(%s).node and p_time <= file_mtime(%s))' % (HP, HP)],
+         raises=[], modifies=['parser_cache', '$maps'], props=['C16', 'C17'])
 
 # ---- a tree from the in-memory cache is returned only while the entry's stamp is not older than the file's mtime.
 # Representation invariant: an entry stamped t (an mtime observed earlier, hence t <= the mtime now) holds the tree
@@ -72,8 +137,18 @@ contract('parso.cache._load_from_file_system',
 contract('parso.cache.load_module',
          params={'hashed_grammar': 'any', 'file_io': 'ref:FileIO', 'cache_path': 'any'}, returns='ref:Module',
          globals_=CACHE,
-         requires=['file_io is not None', 'parser_cache is not None',
-                   'forall(lambda g: implies(g in parser_cache, parser_cache[g] is not None))',
+         requires=['file_io is not None', 'parser_cache is not None', 'allocated(parser_cache)',
+                   'forall(lambda g: implies(g in parser_cache, parser_cache[g] is not None and parser_cache[g] is not parser_cache '
+                   'and allocated(parser_cache[g])))',
+                   'forall(lambda g1, g2: implies(g1 in parser_cache and g2 in parser_cache and g1 != g2, '
+                   'parser_cache[g1] is not parser_cache[g2]))',
+                   # DISK-INV for this source file (assumed of the writer): a cache file that is not older than the
+                   # source's current mtime holds the tree of the current content
+                   'implies(isinstance(file_obj(hashed_path(hashed_grammar, file_io.path, cache_path)), _NodeCacheItem) and '
+                   'cur_mtime(file_io.path) <= file_mtime(hashed_path(hashed_grammar, file_io.path, cache_path)), '
+                   'file_item(hashed_path(hashed_grammar, file_io.path, cache_path)).node is not None and '
+                   'file_item(hashed_path(hashed_grammar, file_io.path, cache_path)).node.ver == '
+                   'ver_at(file_io.path, cur_mtime(file_io.path)))',
                    'forall(lambda g, p: implies(g in parser_cache and p in parser_cache[g], '
                    'parser_cache[g][p] is not None and parser_cache[g][p].node is not None and '
                    'parser_cache[g][p].change_time <= cur_mtime(p) and '
